@@ -167,21 +167,7 @@ func crossOriginObligations(o *world.Obs, r *Result) {
 	if len(crossNamed) == 0 {
 		return
 	}
-	// filtered observation log
-	fo := &world.Obs{Sc: o.Sc, Calls: o.Calls, Ops: o.Ops}
-	for _, ex := range o.Exchanges {
-		if drop[ex.Idx] {
-			// keep the exchange as a harmless safe request so that indices stay aligned
-			cp := *ex
-			rq := *ex.Req
-			rq.Method = "OPTIONS"
-			cp.Req = &rq
-			fo.Exchanges = append(fo.Exchanges, &cp)
-			continue
-		}
-		fo.Exchanges = append(fo.Exchanges, ex)
-	}
-	sh := BuildShadow(fo)
+	sh := buildShadow(o, drop)
 	for _, ob := range sh.Obligations {
 		hit := false
 		for _, n := range crossNamed {
